@@ -49,6 +49,7 @@ ASSUMPTIONS = [
     "cases with min > max (outside the property's quantifier) are compared with the model (which pads, then truncates, like the code) and checked for valid UTF-8 and at most max characters, but not against the law fit",
 ]
 TRUSTED = ["the sink oracle of Model/Width.v (1 <= accepted <= offered, infallible) and std's write_all / fmt adapter behaviour modelled from their documentation"]
+RELEASE_TOO = True          # the sampled cases also run through the release-profile harness (see ./check)
 EXHAUSTIVE = {"quick": False, "thorough": False}
 
 
